@@ -361,6 +361,16 @@ def run(ctx):
             k += 1
             ctx.evaluations += 1
             ctx.distinct(["unk", pos, tags])
+            # ... and under a track selection (all tracks of the file selected, so that the chart is the same; an empty one,
+            # where only the report is judged): what is reported does not depend on what was asked for
+            from chartgen import HEADER_KEY, want_pairs
+            for wname, wsel in (("all", want_pairs([HEADER_KEY[h] for h in headers])), ("tuple", tuple(want_pairs([HEADER_KEY[h] for h in headers]))), ("empty", [])):
+                kind, val, logs = parse_logged(text, want=wsel, path_mode=(("x", False) if (k + pos) % 2 else None))
+                d = _obs_digest(val) if kind == "chart" else "raised:" + type(val).__name__
+                recs.append({"id": f"unk-{k}-{wname}", "props": ["C06"], "kind": "unknown", "a": base_d if wname != "empty" else d, "b": d,
+                             "inserted": tags, "warned": warned_tags(logs, tags), "selection": wname})
+                texts[f"unk-{k}-{wname}"] = text
+                ctx.evaluations += 1
     # each required section removed
     for k, req in enumerate(["Song", "SyncTrack", "Events"]):
         order = [t for t in base_order if t != req]
